@@ -21,7 +21,7 @@ fn pool() -> Vec<PoolKey> {
     let u = |name| PoolKey { name, hashable: false };
     vec![
         h("one"), h("one_point_zero"), h("zero"), h("neg_zero"), h("half"), h("nan"), h("true"), h("false"), h("nil"), h("str_a"), h("str_a_concat"),
-        h("t12"), h("t12_again"), h("t21"), h("t1_23"), h("t12_3"), h("class_num"), h("r12"), h("r12_again"), h("r21"),
+        h("t12"), h("t12_again"), h("t21"), h("t1_23"), h("t12_3"), h("class_num"), h("r12"), h("r12_again"), h("r21"), h("t_r12"),
         u("vec"), u("map"), u("tuple_with_vec"), u("lambda"), u("instance"),
     ]
 }
@@ -46,6 +46,7 @@ fn key_expr(name: &str) -> Expr {
         "class_num" => var("Num"),
         "r12" | "r12_again" => Expr::Paren(Box::new(bin(BinOp::Range, num(1.0), num(2.0)))),
         "r21" => Expr::Paren(Box::new(bin(BinOp::Range, num(2.0), num(1.0)))),
+        "t_r12" => Expr::TupleLit(vec![Expr::Paren(Box::new(bin(BinOp::Range, num(1.0), num(2.0)))), s("x")]),
         "vec" => Expr::VecLit(vec![num(1.0)]),
         "map" => Expr::MapLit(vec![]),
         "tuple_with_vec" => Expr::TupleLit(vec![num(1.0), Expr::VecLit(vec![num(2.0)])]),
@@ -75,6 +76,7 @@ fn key_value(name: &str) -> V {
         "class_num" => V::Tuple(Rc::new(vec![vstr("\u{1}class Num")])),
         "r12" | "r12_again" => V::Range(1, 2),
         "r21" => V::Range(2, 1),
+        "t_r12" => V::Tuple(Rc::new(vec![V::Range(1, 2), vstr("x")])),
         _ => V::Nil,
     }
 }
@@ -136,6 +138,14 @@ fn probe(e: Expr) -> Stmt {
 
 fn program(history: &[Op], ops: &[Op], keys: &[PoolKey]) -> Vec<Stmt> {
     let mut prog = vec![class_stmt("K", None, Some("new"), vec![])];
+    // others(): ten other ranges are built, so that a range (or a tuple holding one) written as a key
+    // afterwards is a separately built object and not one the interpreter still had at hand
+    prog.push(fn_stmt(func(
+        "others",
+        &[],
+        vec![st(StmtKind::For("i".into(), bin(BinOp::Range, num(0.0), num(9.0)), vec![var_stmt("r", bin(BinOp::Range, bin(BinOp::Add, num(100.0), var("i")), bin(BinOp::Sub, num(200.0), var("i"))))]))],
+    )));
+    let others = || expr_stmt(call(var("others"), vec![]));
     // build(): the state by its shortest history
     let mut body: Vec<Stmt> = Vec::new();
     let mut rest = history;
@@ -146,12 +156,13 @@ fn program(history: &[Op], ops: &[Op], keys: &[PoolKey]) -> Vec<Stmt> {
         body.push(var_stmt("m", Expr::MapLit(vec![])));
     }
     for op in rest {
+        body.push(others());
         body.push(expr_stmt(op_stmt("m", op)));
     }
     body.push(st(StmtKind::Return(Some(var("m")))));
     prog.push(fn_stmt(func("build", &[], body)));
     // dump(m): contents as seen through every hashable pool key, and the enumerations
-    let mut dump: Vec<Stmt> = vec![print_stmt(invoke(var("m"), "len", vec![]))];
+    let mut dump: Vec<Stmt> = vec![others(), print_stmt(invoke(var("m"), "len", vec![]))];
     for k in keys.iter().filter(|k| k.hashable) {
         dump.push(print_stmt(Expr::VecLit(vec![invoke(var("m"), "has_key", vec![key_expr(k.name)]), invoke(var("m"), "get", vec![key_expr(k.name)])])));
     }
@@ -180,6 +191,7 @@ fn program(history: &[Op], ops: &[Op], keys: &[PoolKey]) -> Vec<Stmt> {
     for op in ops {
         prog.push(block(vec![
             var_stmt("m", call(var("build"), vec![])),
+            others(),
             probe(op_stmt("m", op)),
             expr_stmt(call(var("dump"), vec![var("m")])),
             // the map is still a working map after the operation (also after a rejected one): a write, a
@@ -310,7 +322,7 @@ pub fn run(ctx: &Ctx) -> Report {
     mcheck::fill_report(
         &mut report,
         &stats,
-        "breadth-first search over HashMap states (canonical = sorted reference contents) from the empty map and from 12 literals, over insert/remove with every key of a pool holding equal-but-separately-built keys (1 and 1.0, 0 and -0, two builds of (1,2), of \"a\" and of 1..2, nested tuples), NaN, a class, and five unhashable values, plus clear; every transition leaving every state is executed on the real HashMap from a rebuilt copy and followed by a full dump (len; has_key/get through every hashable pool key; keys/values/items enumerate each entry once; a map rebuilt from items is == the original). One program per state.",
+        "breadth-first search over HashMap states (canonical = sorted reference contents) from the empty map and from 12 literals, over insert/remove with every key of a pool holding equal-but-separately-built keys (1 and 1.0, 0 and -0, two builds of (1,2), of \"a\" and of 1..2 - with ten other ranges built before every operation and every dump, so that the two builds are two objects -, a tuple holding a range, nested tuples), NaN, a class, and five unhashable values, plus clear; every transition leaving every state is executed on the real HashMap from a rebuilt copy and followed by a full dump (len; has_key/get through every hashable pool key; keys/values/items enumerate each entry once; a map rebuilt from items is == the original). One program per state.",
         json!({"max_live_entries": max_live, "depth": max_depth, "pool_keys": keys.len()}),
     );
     report.cov("states", json!(states));
